@@ -114,6 +114,12 @@ def gen(rng, shape=None):
         imps = sorted({owner[c] for f in fs for c in _callees(f)})
         sp.roots.append(("top%d" % ri, fs, imps, gl))
         root_funcs_all.extend(fs)
+    # now and then one more root that imports nothing at all (added late to a linker, nothing is pending for it)
+    if rng.random() < 0.4:
+        x = V("x", INT)
+        sf = Func("solo_f", [(INT, "x")], INT, Block([Return(B("+", B("*", x, IntLit(rng.randint(2, 9))), IntLit(1)))]), True)
+        sp.roots.append(("solo", [sf], [], []))
+        root_funcs_all.append(sf)
     # one function name overloaded across module boundaries: the library declares ov(int), a root declares ov(float)
     # and calls the name with an int (exact match = the imported overload) and with a float (its own)
     extra = []
